@@ -396,6 +396,69 @@ pub fn table() -> Vec<Spec> {
         s.skip_loops = true;
         t.push(s);
     }
+
+    // ------------------------------------------------------------------ src/volatile_memory.rs, mod copy_slice_impl
+    {
+        let vfile = "src/volatile_memory.rs";
+        let cs = |name: &'static str, f: &'static str, loc: Loc| base("CopySlice", "Volatile", vfile, name, f, loc);
+        let usize_bytes = || ("size_of :: < usize > ()".to_string(), "8".to_string(), Ty::Int(64));
+        // copy_slice_volatile: align = min(alignment(src), alignment(dst)); the passes 8 (64-bit host), 4, 2, 1 of
+        // the closure in this order (calls of the opaque local closure); returns total.  Result: (calls, (total, align))
+        let mut s = cs("csv_plan", "copy_slice_volatile", Loc::Free("copy_slice_volatile"));
+        s.canon_params = vec!["dst", "src", "total"];
+        s.effects = vec!["copy_aligned_slice"];
+        s.effects_ret = true;
+        s.with_locals = vec!["align"];
+        s.consts = vec![usize_bytes()];
+        t.push(s);
+        // the closure `copy_aligned_slice(min_align)`: its guard `if align < min_align { return; }` ...
+        let closure = || Loc::Closure { outer: Box::new(Loc::Free("copy_slice_volatile")), idx: 0 };
+        let mut s = cs("cas_guard", "copy_aligned_slice", closure());
+        s.canon_params = vec!["min_align"];
+        s.param_tys = vec![("min_align", Ty::Int(64))];
+        s.extra = vec![ex("align", "align", Ty::Int(64))];
+        s.until = Some("while");
+        s.step = Some(("unit", "unit"));
+        t.push(s);
+        // ... and ONE iteration of its `while left >= min_align` loop incl. the condition: copy_single(min_align,
+        // src, dst) (opaque), left -= min_align, `if left == 0 { break }`, src/dst advanced (the captured
+        // variables src, dst, left are the state)
+        let mut s = cs("cas_body", "copy_aligned_slice", closure());
+        s.canon_params = vec!["min_align"];
+        s.param_tys = vec![("min_align", Ty::Int(64))];
+        s.loop_idx = Some(0);
+        s.loop_cond = true;
+        s.state = vec![ex("src", "src", Ty::Ptr), ex("dst", "dst", Ty::Ptr), ex("left", "left", Ty::Int(64))];
+        s.effects = vec!["copy_single"];
+        s.ptr_checked = true;
+        s.step = Some(("N * N * N", "unit"));
+        t.push(s);
+        // copy_slice: the `total <= size_of::<usize>()` threshold: volatile loop vs bulk copy; returns total
+        let mut s = cs("copy_slice", "copy_slice", Loc::Free("copy_slice"));
+        s.canon_params = vec!["dst", "src", "total"];
+        s.effects = vec!["copy_slice_volatile", "copy_nonoverlapping"];
+        s.effects_ret = true;
+        s.consts = vec![usize_bytes()];
+        t.push(s);
+        // copy_from_volatile_slice / copy_to_volatile_slice: which pointer is source / destination of copy_slice
+        // (opaque), total passed on unchanged; the latter marks (0, count) dirty on the slice's bitmap afterwards
+        let mut s = cs("copy_from_volatile_slice", "copy_from_volatile_slice", Loc::Free("copy_from_volatile_slice"));
+        s.canon_params = vec!["dst", "slice", "total"];
+        s.drop_params = vec!["slice"];
+        s.skip_as = vec![("slice . ptr_guard ()", "guard")];
+        s.extra = vec![ex("guard . as_ptr ()", "slice_addr", Ty::Ptr)];
+        s.fns = vec![ofn("copy_slice", "copy_slice", "N -> N -> N -> N", Ty::Int(64))];
+        t.push(s);
+        let mut s = cs("copy_to_volatile_slice", "copy_to_volatile_slice", Loc::Free("copy_to_volatile_slice"));
+        s.canon_params = vec!["slice", "src", "total"];
+        s.drop_params = vec!["slice"];
+        s.skip_as = vec![("slice . ptr_guard_mut ()", "guard")];
+        s.extra = vec![ex("guard . as_ptr ()", "slice_addr", Ty::Ptr)];
+        s.fns = vec![ofn("copy_slice", "copy_slice", "N -> N -> N -> N", Ty::Int(64))];
+        s.effects = vec!["mark_dirty"];
+        s.effects_ret = true;
+        t.push(s);
+    }
     // ------------------------------------------------------------------ src/guest_memory.rs
     let gfile = "src/guest_memory.rs";
     let start = || ex("self . start_addr ()", "start", Ty::Addr);
@@ -766,6 +829,7 @@ pub fn table() -> Vec<Spec> {
 pub fn module_deps(m: &str) -> Vec<&'static str> {
     match m {
         "Guest" => vec!["Address"],
+        "CopySlice" => vec!["Volatile"],
         "Mmap" => vec!["Address", "Guest"],
         _ => vec![],
     }
